@@ -410,6 +410,44 @@ class Folder:
                     if meth in ("keys", "values", "items"):
                         r = list(r)
                     return r
+        if isinstance(e.func, ast.Name) and e.func.id not in env and \
+                module is not None and e.func.id in getattr(
+                    module, "functions", {}):
+            # a helper of the same module applied to constants: evaluate
+            # its body (pure table-building code; anything else is
+            # NotConst)
+            g = module.functions[e.func.id]
+            depth = getattr(self, "_helper_depth", 0)
+            if depth < 4 and not any(
+                    isinstance(a, ast.Starred) for a in e.args) and \
+                    not any(k.arg is None for k in e.keywords):
+                args = [self.fold(a, module, cls, env) for a in e.args]
+                kw = {k.arg: self.fold(k.value, module, cls, env)
+                      for k in e.keywords}
+                params = list(g.call_params)
+                if len(args) <= len(params) and set(kw) <= set(params):
+                    e2 = dict(zip(params, args))
+                    e2.update(kw)
+                    ok = True
+                    for p_ in params:
+                        if p_ not in e2:
+                            d = g.defaults.get(p_)
+                            if d is None:
+                                ok = False
+                                break
+                            e2[p_] = self.fold(d, module, None, {})
+                    if ok:
+                        body = [st for st in g.node.body if not (
+                            isinstance(st, ast.Expr) and isinstance(
+                                st.value, ast.Constant))]
+                        self._helper_depth = depth + 1
+                        try:
+                            exec_block(self, body, e2, module, None)
+                        except _Return as r:
+                            return r.value
+                        finally:
+                            self._helper_depth = depth
+                        return None
         raise NotConst("call %s" % fn)
 
 
